@@ -229,25 +229,23 @@ def requiredHexConstant : PM VBytes := requiredConstant hexString
 def requiredDecimalConstant : PM VBytes := requiredConstant decimalString
 def requiredBinaryConstant : PM VBytes := requiredConstant binaryString
 
-/-- `node_token`: the scanned keyword is looked up in the table generated from the source. -/
-def nodeToken : PM (Option Gen.Btor2.NodeToken) := do
+/-- The shared body of `node_token` and `sort_token`: scan the run of `a..z` at the cursor, look it
+up (`table` = the `match matched { … }`, `none` = its `_ => return Fallthrough` arm) and consume
+it on a match. -/
+def keywordToken {τ : Type} (table : VBytes → Option τ) : PM (Option τ) := do
   let off ← scan (lowercaseRun · 0)
   let matched ← bufPrefix off
-  match Gen.Btor2.nodeToken matched with
+  match table matched with
   | none => pure none
   | some t =>
     advance matched.length
     pure (some t)
 
+/-- `node_token`: the scanned keyword is looked up in the table generated from the source. -/
+def nodeToken : PM (Option Gen.Btor2.NodeToken) := keywordToken Gen.Btor2.nodeToken
+
 /-- `sort_token`. -/
-def sortToken : PM (Option Gen.Btor2.SortToken) := do
-  let off ← scan (lowercaseRun · 0)
-  let matched ← bufPrefix off
-  match Gen.Btor2.sortToken matched with
-  | none => pure none
-  | some t =>
-    advance matched.length
-    pure (some t)
+def sortToken : PM (Option Gen.Btor2.SortToken) := keywordToken Gen.Btor2.sortToken
 
 end Btor2
 end Flussab
